@@ -54,7 +54,7 @@ func (propC16) Exhaustive(tier string) bool {
 	return false // the sweep over all short argument strings is exhaustive, the template stream is sampled
 }
 func (propC16) Rule() string {
-	return "san: templates (select items, WHERE comparisons, IN lists, function arguments) with 1-4 placeholders in literal positions and decoys inside '..', \"..\", `..`, --, #, //, /* */, plus a malformed byte-soup stream; arguments: strings over {' \" \\ ` - # / * NUL \\n % _ $ 1 ; space e-acute CJK OR UNION} of length 0-12 (all strings up to length 2 (quick) / 3 (thorough) over {' \\ \" - space 1 % \\n} exhaustively through the echo and the filter probe), int64/float64 boundary values, bool, nil, unsupported Go types, missing/unused/$0. lit: string literals with every escape of SQLDecodeMap, doubled delimiters, unterminated. A san case is non-trivial when it has at least one placeholder and one argument; a lit case when the literal contains a backslash or a doubled delimiter; distinct = distinct input"
+	return "san: templates (select items, WHERE comparisons, IN lists, function arguments) with 1-4 placeholders in literal positions and decoys inside '..', \"..\", `..`, --, #, //, /* */, plus a malformed byte-soup stream; arguments: strings over {' \" \\ ` - # / * NUL \\n % _ $ 1 ; space e-acute CJK OR UNION + 31 non-ASCII look-alikes of quotes, backslash, backtick, dashes, # / * ; $ and spaces} of length 0-12 (every look-alike in 6 fixed shapes through the echo and the filter probe) (all strings up to length 2 (quick) / 3 (thorough) over {' \\ \" - space 1 % \\n} exhaustively through the echo and the filter probe), int64/float64 boundary values, bool, nil, unsupported Go types, missing/unused/$0. lit: string literals with every escape of SQLDecodeMap, doubled delimiters, unterminated. A san case is non-trivial when it has at least one placeholder and one argument; a lit case when the literal contains a backslash or a doubled delimiter; distinct = distinct input"
 }
 
 func c16Q(s string) string { return strconv.QuoteToASCII(s) }
@@ -73,6 +73,11 @@ var c16FixedStrings = []string{
 	"UNION SELECT 1", "1; DROP TABLE t", `\"`, `a"b'c\d`, "x", "name",
 }
 
+// c16LookAlikes: runes outside ASCII that resemble a character of the quote / escape / comment alphabet
+var c16LookAlikes = []string{"\u2018", "\u2019", "\u201c", "\u201d", "\u201a", "\u201e", "\u2032", "\u2033", "\u02bc", "\u00b4", "\u0060\u0301",
+	"\uff07", "\uff02", "\uff3c", "\uff40", "\u2010", "\u2013", "\u2014", "\u2212", "\uff0d", "\uff03", "\uff0f", "\uff0a", "\uff1b", "\uff04",
+	"\u00a0", "\u3000", "\u2028", "\ufeff", "\u00ab", "\u00bb"}
+
 var c16Ints = []int64{0, 1, -1, 5, -5, 10, 42, 127, -128, 1 << 31, -(1 << 31), 1<<53 - 1, 1 << 53, 1<<53 + 1, -(1<<53 + 1),
 	math.MaxInt64, math.MinInt64, math.MaxInt64 - 1, 1000000, 999999999999}
 var c16Floats = []float64{0, math.Copysign(0, -1), 1, -1, 0.5, -0.5, 1.5, -1.5, 0.25, 0.125, 3.75, 100, 1e6, 1e15, 1e21, 1e22,
@@ -86,6 +91,10 @@ func c16RandStr(r *Rand) string {
 	n := r.Range(0, 12)
 	var b strings.Builder
 	for i := 0; i < n; i++ {
+		if r.Chance(6) {
+			b.WriteString(Pick(r, c16LookAlikes))
+			continue
+		}
 		b.WriteString(Pick(r, c16StrAlphabet))
 	}
 	return b.String()
@@ -246,6 +255,19 @@ func (propC16) Generate(r *Rand, tier string) []Case {
 	}
 	for _, ty := range []string{"int", "uint8", "float32", "struct", "int32"} {
 		add(c16In{Kind: "san", T: c16Q(echoT), Args: []c16Arg{{"other", ty}}}, []string{"fixed", "arg:other"}, true)
+	}
+
+	// 2b. multi-byte runes that LOOK like the quote / escape / comment alphabet (typographic quotes, primes, fullwidth
+	// forms, dashes, exotic spaces, BOM): inside an argument they are ordinary text for the library's own parser — nothing
+	// downstream of the sanitizer may read them as the ASCII character they resemble. Every look-alike alone, between
+	// letters, doubled after an ASCII quote, after and before a backslash, and in the classic injection shape, through echo
+	// and filter (genql.New -> Parse -> Exec).
+	for _, h := range c16LookAlikes {
+		for _, s := range []string{h, "O" + h + "Brien", "x" + h + " OR 1=1 -- ", "'" + h + h, "\\" + h, h + "$1" + h + "\\"} {
+			add(c16In{Kind: "san", T: c16Q(echoT), Args: []c16Arg{c16StrArg(s)}, Probe: "echo"}, []string{"look-alike", "probe:echo", "arg:str"}, true)
+			add(c16In{Kind: "san", T: c16Q(filtT), Args: []c16Arg{c16StrArg(s)}, Probe: "filter", Names: []string{c16Q("a"), c16Q(s), c16Q("x"), c16Q("O"), c16Q(s + s)}},
+				[]string{"look-alike", "probe:filter", "arg:str"}, true)
+		}
 	}
 
 	// 3. error accounting: $0, missing, unused, gaps
